@@ -542,3 +542,62 @@ def run_narrow_shift(facts, rep, modules=None):
                           "%d and the result sign-extended in release builds" % (tn, tw, x.get("l"), 31 if tn == "i32" else 0,
                                                                                  32 if tn == "i32" else 0), facts.loc(p, x))
     return n
+
+
+def run_absmod(facts, rep, files=None):
+    """R-CONTRA(absmod) [N]: `reduce(x.unsigned_abs(), M)` is the residue of a signed x only for x >= 0; for negative x the
+    residue is M - that.  A function that reduces the magnitude of a signed integer local modulo something must consult the
+    sign of that same local (`x < 0`, `x >= 0`, is_negative, signum, ...) somewhere; if nothing does, negative values are
+    mapped to the residue of their absolute value."""
+    R = "R-CONTRA(absmod)"
+    rep.rule(R, "wherever the magnitude of a signed integer local is reduced modulo a modulus, the function also tests that "
+             "local's sign")
+    REDUCE = {"barrett_reduce_u64", "barrett_reduce_u128", "reduce", "reduce_u128", "modulo"}
+    SIGNED = ("i64", "i128", "i32", "isize", "i16", "i8")
+    n = 0
+    for p in sorted(facts.hir):
+        it = facts.items[p]
+        if files is not None and it["file"] not in files:
+            continue
+        body = facts.hir[p]
+        tree = None
+        sites = []
+        for x in walk(body):
+            if x.get("k") == "MCall" and x.get("name") in ("unsigned_abs", "abs") and not x["args"]:
+                lo = local_of(x["recv"])
+                if lo and facts.ty(x["recv"]).lstrip("&") in SIGNED:
+                    tree = tree or Tree(body)
+                    red = None
+                    for a in tree.ancestors(x):
+                        if a.get("k") in ("Call", "MCall") and ((callee(a) or {}).get("name") or a.get("name")) in REDUCE:
+                            red = a
+                            break
+                        if a.get("k") == "Bin" and a.get("op") == "%":
+                            red = a
+                            break
+                        if a.get("k") in ("Let", "Semi", "Expr", "Block"):
+                            break
+                    if red is not None:
+                        sites.append((x, lo, red))
+        for k, (x, lo, red) in enumerate(sites):
+            n += 1
+            rep.fn(p)
+            key = "%s/%s#%d" % (p, lo[1], k)
+            signtest = False
+            for y in walk(body):
+                if y.get("k") == "Bin" and y.get("op") in ("<", "<=", ">", ">="):
+                    a, b = strip(y["a"]), strip(y["b"])
+                    la, lb = local_of(a), local_of(b)
+                    z = lambda e: e.get("k") == "Lit" and re.sub(r"_?[iu]\d+$|_?[iu]size$", "", str(e.get("v"))) in ("0", "-1", "1")
+                    if (la and la[0] == lo[0] and z(b)) or (lb and lb[0] == lo[0] and z(a)):
+                        signtest = True
+                if y.get("k") == "MCall" and y.get("name") in ("is_negative", "is_positive", "signum") and \
+                        local_of(y["recv"]) and local_of(y["recv"])[0] == lo[0]:
+                    signtest = True
+            if signtest:
+                rep.ok(R, key, "the magnitude of `%s` is reduced and its sign is tested" % lo[1], facts.loc(p, x))
+            else:
+                rep.violation(R, key, "the magnitude of the signed `%s` is reduced modulo a modulus (line %s) but nothing in %s "
+                              "tests its sign: a negative value is mapped to the residue of its absolute value instead of the "
+                              "modulus minus that" % (lo[1], x.get("l"), p), facts.loc(p, x))
+    return n
